@@ -325,7 +325,10 @@ def run_property(prop, tier, seed, keep_scratch=False, only=None):
     if e2_cov:
         coverage["e2"] = {k: v for k, v in e2_cov.items() if k != "samples"}
         if cfg["level"] == "translation_validation":
-            coverage["programs"] = int(e2_cov.get("programs", 0))
+            # 'programs' = distinct emitted plan sets validated (each by the solver); the number of concrete egglog
+            # programs run to obtain them is reported as concrete_programs_run
+            coverage["programs"] = int(e2_cov.get("distinct_plans", 0))
+            coverage["concrete_programs_run"] = int(e2_cov.get("programs", 0))
             coverage["disagreements_checked"] = int(e2_cov.get("disagreements_checked", 0))
     ev = {
         "property_id": prop,
